@@ -47,6 +47,11 @@ HOOK_REDEFINE = {
     "pthread_rwlock_unlock": "vsched_rwlock_unlock",
     "pthread_rwlock_tryrdlock": "vsched_rwlock_tryrdlock",
     "pthread_rwlock_trywrlock": "vsched_rwlock_trywrlock",
+    # libc memory functions: their accesses belong to the calling thread (libc is not instrumented)
+    "memcpy": "vsched_memcpy",
+    "memmove": "vsched_memmove",
+    "memset": "vsched_memset",
+    "memcmp": "vsched_memcmp",
 }
 # blocking primitives the scheduler does not model: each gets its own stub that stops the run
 # with a harness error (objcopy wants distinct targets)
@@ -198,7 +203,7 @@ def lib_sources(lib):
     return sorted(out)
 
 
-def build(name, sources, libs, flavour="asan", extra_flags=(), link_flags=(), hook_libs=()):
+def build(name, sources, libs, flavour="asan", extra_flags=(), link_flags=(), hook_libs=(), hook_sources=()):
     """Build build/bin/<name> from harness sources + the fcppt library sources
     (compiled from /repo) named in libs.  Libraries in hook_libs are compiled with
     TSan instrumentation and get their pthread calls redirected (engine S); their
@@ -210,6 +215,8 @@ def build(name, sources, libs, flavour="asan", extra_flags=(), link_flags=(), ho
     tus = []
     for l in hook_libs:
         tus += [(s, hflags, True) for s in lib_sources(l)]
+    # harness-side sources that must be instrumented like the hooked libraries (rt/sched/visible_std.cpp)
+    tus += [(os.path.join(VERIF, s), hflags, True) for s in hook_sources]
     tus += [((os.path.join(VERIF, s) if not os.path.isabs(s) else s), flags, False) for s in sources]
     for l in libs:
         tus += [(s, flags, False) for s in lib_sources(l)]
